@@ -1075,7 +1075,7 @@ Definition do_internal (h : hub) (c sid : N) (s : session) (q : internalreq) : h
           let h0 := set_nextsid h vs in
           let prev := pget h0.(h_vtable) (sid, v) in
           let incallfeat := match s.(s_kind) with KInternal f _ => f | _ => false end in
-          let ic := match incall with Some x => x | None => if incallfeat then 0 else 5 end in
+          let ic := match incall with Some x => x | None => if incallfeat then 0 else 9 end in   (* FlagInCall | FlagWithPhone *)
           let fl := match flags with Some x => x | None => 0 end in
           (* SetRoom: room session = own public id; the new session becomes a member of the room *)
           let vsess := mksess s.(s_backend) (KVirtual sid v) user (Some k) (2000000 + vs) None None [] [] 0 ic fl [] [] [] 0 in
